@@ -1841,7 +1841,7 @@ Section ClockComposed.
     destruct x as [st ch]. intros [Lk Q]. unfold commit_slot. destruct (nth_error (e_slots st) i); [|apply same_clk_refl].
     destruct (sp s && negb (sc s =? sn s)); [|apply same_clk_refl].
     cbn [fst e_procs e_now] in *. repeat split; [|apply mapi_from_length].
-    Show. unfold mapi. rewrite (mapi_from_nth _ _ _ _ no_pstate) by auto. simpl. apply ps_notify_quiet; auto.
+    cbn [e_procs]. unfold mapi. rewrite (mapi_from_nth _ _ _ _ no_pstate) by auto. simpl. apply ps_notify_quiet; auto.
   Qed.
 
   Lemma fold_commit_same o : forall x, quiet (fst x) -> same_clk (fst x) (fst (fold_left (commit_slot ps) o x)).
@@ -1983,3 +1983,23 @@ Section ClockComposed.
     - destruct H1 as [H1|H1]; [exists j|exists (S j)]; auto.
   Qed.
 End ClockComposed.
+
+Lemma clk_due_init k slot phase period inits pst tbs :
+  (k < length pst)%nat -> nth k pst no_pstate = clock_pstate ->
+  clk_due k slot phase period 0 (init_state inits pst tbs).
+Proof. intros Lk E. unfold clk_due, init_state. cbn [e_procs e_now]. rewrite E. repeat split; auto. Qed.
+
+(* the closed form of the run times used by clk_due / clk_sleep *)
+Lemma clk_time_closed_form slot phase period j :
+  snd (clk_sys slot phase period 0) = 0 /\
+  snd (clk_sys slot phase period (S j)) = phase + Z.of_nat j * (period / 2).
+Proof. split; [reflexivity|]. rewrite clock_edges_exact. reflexivity. Qed.
+
+(* three testbenches sharing slot 0: each reads what its predecessors in insertion order have just set and settled *)
+Definition ex_tb_ps : list proc :=
+  [P (fun i _ _ => Nat.eqb i 0) [] (fun l _ cu _ => PR l [W 1 (nth 0 cu 0 + 1) 31] None)].
+Definition ex_tb_st : estate :=
+  init_state [0; 1] [rtl_pstate true]
+    [[OGet 0; OSet 0 (Sh 4 false) 5; OGet 1];
+     [OGet 0; OGet 1; OSet 0 (Sh 4 false) 9];
+     [OGet 0; OGet 1]].
